@@ -23,8 +23,8 @@ CLAIMED = {
    technique="contract-based deductive verification at an abstract-ring layer (go/ssa symbolic execution yields polynomials; SMT proves the polynomial identities)",
    design="§5 C06"),
  "C07": dict(
-   text="Deductive proof of acceptance-implies-check clauses for the G1 point decoders (setBytes, unsafeSetCompressedBytes) of every curve with the generated decoder: nil error only if the flag pattern is valid, coordinates decoded canonically, infinity encodings are all-zero, raw points passed the subgroup test or (when disabled) the on-curve test, compressed points have Y = +-sqrt(X^3+b) with the sign selected by the flag and passed the subgroup test when enabled; byte counts match; every slice/index operation is a discharged bounds obligation (short input gives an error, never a panic).",
-   note="Trusted: coordinate decoders opaque at this layer (proved under C08), IsInSubGroup assumed pure, Sqrt assumed to return a root or nil. Not under contract: G2 decoders, encoders and round trips, streaming Encoder/Decoder, secp256k1 and twisted-Edwards decoders. One open known finding (stark-curve infinity payload).",
+   text="Deductive proof of acceptance-implies-check clauses for the G1 point decoders (setBytes, unsafeSetCompressedBytes) of every curve with the generated decoder and the G2 decoders (setBytes) of 7 curves: nil error only if the flag pattern is valid, coordinates decoded canonically, infinity encodings are all-zero, raw points passed the subgroup test or (when disabled) the on-curve test, compressed points have Y = +-sqrt(X^3+b) with the sign selected by the flag and passed the subgroup test when enabled; byte counts match; every slice/index operation is a discharged bounds obligation (short input gives an error, never a panic).",
+   note="Trusted: coordinate decoders opaque at this layer (proved under C08), IsInSubGroup assumed pure, Sqrt assumed to return a root or nil. G2 over an extension field: all 2k / k base-field coordinates decoded canonically, Legendre and Sqrt applied to the same value (sign selection and Y^2 = X^3 + b' not stated). Not under contract: encoders and round trips, streaming Encoder/Decoder, secp256k1 and twisted-Edwards decoders. One open known finding (stark-curve infinity payload).",
    technique="contract-based deductive verification: path-split symbolic execution with ghost capture of callee results at call-site cut points (acceptance-implies-check obligations), bounds obligations",
    design="§5 C07"),
  "C08": dict(
